@@ -81,7 +81,15 @@ class ClassIds:
         self.names = {}
         self.bases = {}
 
+    ALIASES = {'socket.error': 'OSError', 'IOError': 'OSError', 'EnvironmentError': 'OSError', 'socket.timeout': 'TimeoutError'}
+
     def add(self, name, bases):
+        if name in self.ALIASES and self.ALIASES[name] in self.ids:
+            # an alias of another class (python 3: socket.error is OSError): same id
+            target = self.ALIASES[name]
+            self.ids[name] = self.ids[target]
+            self.bases[name] = list(self.bases.get(target, []))
+            return
         if name not in self.ids:
             n = len(self.ids) + 1
             self.ids[name] = n
@@ -94,6 +102,13 @@ class ClassIds:
         return self.ids[name]
 
     def issub(self, name, base):
+        if name == base:
+            return True
+        return any(self.issub(b, base) for b in self.bases.get(name, []) if b in self.bases or b == base)
+
+    def issub(self, name, base):
+        name, base = self.ALIASES.get(name, name) if self.ALIASES.get(name) in self.ids else name, \
+            self.ALIASES.get(base, base) if self.ALIASES.get(base) in self.ids else base
         if name == base:
             return True
         return any(self.issub(b, base) for b in self.bases.get(name, []) if b in self.bases or b == base)
